@@ -614,7 +614,7 @@ func c20Directed() []c20Scenario {
 			{{Kind: "purchase", Signer: 1, Benef: -1, Name: "n.ol", Amount: olt(19)}, {Kind: "purchase", Signer: 1, Benef: -1, Name: "n.ol", Amount: olt(23)}},
 			{{Kind: "deletesub", Signer: 2, Benef: -1, Name: "xn.ol"}},
 		}},
-		// D2: block count beyond int64
+		// D2: block count beyond int64 (refused since /repo bd3d183)
 		{Label: "expiry_blocks_ge_2p63", PerBlock: "1", Base: "1", Blocks: [][]c20Op{
 			{cr(0, "n.ol", olt(10)), cr(1, "m.ol", olt(9))},
 			{},
@@ -679,6 +679,7 @@ func c20Main(args []string) int {
 	outDir := fs.String("out", ".", "output directory")
 	chunk := fs.Int("chunk", 4, "cases per Coq file")
 	replay := fs.String("replay", "", "JSON file with a list of scenarios to run instead of the directed ones")
+	corpusF := fs.String("corpus", "", "corpus file {scenarios:[...]}: run after the directed scenarios")
 	fs.Parse(args)
 
 	traces := []*c20Trace{}
@@ -688,6 +689,15 @@ func c20Main(args []string) int {
 		must(err)
 		dir = nil
 		must(json.Unmarshal(bz, &dir))
+	}
+	if *corpusF != "" {
+		bz, err := os.ReadFile(*corpusF)
+		must(err)
+		var cf struct {
+			Scenarios []c20Scenario `json:"scenarios"`
+		}
+		must(json.Unmarshal(bz, &cf))
+		dir = append(dir, cf.Scenarios...)
 	}
 	for i := range dir {
 		traces = append(traces, c20Run(&dir[i]))
